@@ -15,6 +15,14 @@ OBLIGATIONS = [
     (P + "no_crash_fcgi", "FastCGI: likewise (cache never read into when full, front() only on non-empty vectors, unknown-role body large enough, negative CONTENT_LENGTH never reaches resize); model recursion budgets suffice"),
     (P + "no_crash_http", "HTTP: likewise; header_.resize(size()-2) and bracket_counter_-- never wrap (parser invariant), with or without the 16 KiB cap firing"),
     (P + "pool_no_overflow", "string_pool page bookkeeping (page size, allocate_space conditions, which block clear() keeps: regenerated from private/string_map.h): for every sequence of allocations and clear()s no allocation is handed bytes outside its malloc block (D18 is the false case)"),
+    (P + "cgi_layer_no_crash", "protocol independent layer (cgi_api.cpp / http_context.cpp / http_request.cpp callbacks regenerated as CStmt programs, interpreted with fall-through semantics): no callback goes on after handing the request on, none ends without handing it on, never two operations pending; the machine stops early only for multipart (C12)"),
+    (P + "request_actions_ok", "every request's action list (early main, end-of-content, error page, completion handler, on_error, dispatch) has one of three shapes: application / error page / dropped"),
+    (P + "app_at_most_once", "main() on the ready request at most once, exactly when the completion handler was called without error; handler called exactly once on every path; early main() at most once"),
+    (P + "on_error_at_most_once", "filter on_error at most once, only after the early main(), only for a failed request, never together with on_end_of_content or a dispatch"),
+    (P + "error_is_answered_or_closed", "a failed request is dropped or answered by exactly one error page with status 400..599 and eof, before the handler is told about the error; the application never sees it"),
+    (P + "actions_refine_outcome", "the Outcome the front-end models use (runRequest) is the summary of the action-level machine, reader state included"),
+    (P + "counters_are_actions", "the four application-side counters the correspondence compares (early main, main, on_error, on_end_of_content), read off the model's Outcome, are the numbers of the corresponding actions"),
+    (P + "readers_progress", "the content readers of the three front-ends deliver 1..want bytes on success (hypothesis of the action-level theorems)"),
     (P + "parser_invariant", "the parser invariant is kept by every non-returning step of the generated transition"),
 ]
 OBLIGATIONS_FILE = os.path.join(HERE, "c02_obligations.json")
